@@ -252,7 +252,10 @@ class GridSearchOracle(oracle_module.Oracle):
             if hp.name not in a:
                 continue
 
-            if a[hp.name] == b[hp.name]:
+            # A trial started before `hp` was declared ran with its default.
+            value_a = a[hp.name]
+            value_b = b.get(hp.name, hp.default)
+            if value_a == value_b:
                 continue
 
             # Get a ordered list of the values of the hp.
@@ -261,8 +264,8 @@ class GridSearchOracle(oracle_module.Oracle):
                 value_list.remove(hp.default)
             value_list.insert(0, hp.default)
 
-            index_a = value_list.index(a[hp.name])
-            index_b = value_list.index(b[hp.name])
+            index_a = value_list.index(value_a)
+            index_b = value_list.index(value_b)
             return -1 if index_a < index_b else 1
 
         return 0
@@ -300,6 +303,8 @@ class GridSearchOracle(oracle_module.Oracle):
             all_values[hp.name] = [hp.default] + value_list
         default_values = {hp.name: hp.default for hp in hps.space}
         hps.values = copy.deepcopy(values)
+        # A trial started before some entry was declared ran with its default.
+        hps.ensure_active_values()
 
         bumped_value = False
 
